@@ -247,7 +247,8 @@ def axiom_audit(pid, prop_mod):
     audit = LEAN / 'Audit' / f'{pid}.lean'
     write_if_changed(audit, text)
     cmd = ['lake', 'env', 'lean', str(audit.relative_to(LEAN))]
-    p = subprocess.run(cmd, cwd=LEAN, capture_output=True, text=True, timeout=900)
+    with LeanLock():  # reads compiled dependencies: must not race with another check rebuilding a shared module
+        p = subprocess.run(cmd, cwd=LEAN, capture_output=True, text=True, timeout=900)
     out = p.stdout + p.stderr
     report = {}
     for m in re.finditer(r"'([^']+)' depends on axioms: \[([^\]]*)\]", out, re.S):
@@ -273,7 +274,8 @@ def run_driver(pid, lines, timeout=1200):
 
 def leanchecker(mods, timeout=3000):
     cmd = ['lake', 'env', 'leanchecker'] + list(mods)
-    p = subprocess.run(cmd, cwd=LEAN, capture_output=True, text=True, timeout=timeout)
+    with LeanLock():
+        p = subprocess.run(cmd, cwd=LEAN, capture_output=True, text=True, timeout=timeout)
     return p.returncode == 0, (p.stdout + p.stderr)[-3000:], ' '.join(cmd)
 
 
